@@ -220,7 +220,7 @@ pair1poly_pipe_init(void *arg, nni_pipe *pipe, void *pair)
 	nni_aio_init(&p->aio_put, pair1poly_pipe_put_cb, p);
 
 	if ((rv = nni_msgq_init(&p->send_queue, 2)) != 0) {
-		pair1poly_pipe_fini(p);
+		// (the core runs our close, stop and fini for a failed init)
 		return (rv);
 	}
 
